@@ -291,8 +291,13 @@ func checkTypestate(c *Ctx, r *Run, m *lockModel) {
 			if cal == nil || !ts.mayAb[cal] {
 				return
 			}
-			if _, isDefer := in.(*ssa.Defer); isDefer {
-				r.Fail("TS-1", tn+"|"+c.FuncName(fn)+"|deferred "+cal.Name(), c.Pos(in.Pos()), "the transition is not deferred unconditionally", "a may-abort call is deferred: it runs in whatever state the frame ends")
+			if d, isDefer := in.(*ssa.Defer); isDefer {
+				// deferred may-abort helper (panic barrier): allowed if the lock is still held when it runs
+				// and the helper establishes Running by itself (checked at its own abort call, see deferTarget)
+				okD := cal != A && m.heldWhenDeferredRuns(fn, d) && m.deferTarget[cal]
+				r.Check("TS-1", tn+"|"+c.FuncName(fn)+"|deferred "+cal.Name(), c.Pos(in.Pos()), okD,
+					"a deferred call that may end the session runs with the lock still held and re-checks the state itself",
+					"a may-abort call is deferred so that it runs after the lock was released, or it is the closing function itself (runs in whatever state the frame ends)")
 				return
 			}
 			r.Analysed(c.FuncName(fn))
@@ -617,12 +622,12 @@ func (ts *handlerTS) runningAt(fn *ssa.Function, in ssa.Instruction) (bool, stri
 // runningAtCall: the call site is Running, either by local facts or because fn itself is only entered Running.
 func (ts *handlerTS) runningAtCall(fn *ssa.Function, in ssa.Instruction) (bool, string) {
 	m := ts.m
-	if fn.Parent() == nil && !fn.Object().Exported() && m.entry[fn] && ts.mayAb[fn] {
+	if fn.Parent() == nil && !fn.Object().Exported() && m.entry[fn] && ts.mayAb[fn] && !m.deferTarget[fn] {
 		// precondition inherited: every call site of fn is itself checked by this rule
 		return true, ""
 	}
 	if fn.Parent() == nil && !fn.Object().Exported() && m.entry[fn] {
-		// helper entered with the lock held but not itself a may-abort function: need local facts
+		// helper entered with the lock held (possibly at frame exit, via defer): need local facts
 		f := ts.nilFacts(fn, in.Block())
 		if f[ts.errF] && f[ts.resF] {
 			return true, ""
